@@ -44,6 +44,10 @@ def v_frames(p, files=None, min_sites=15):
         n_sites += 1
         fact(p, f'frame.state:{s.fn}@{s.what.strip()}', s.ok,
              f'{rel}:{s.lineno}: `{s.what.strip()}` — {s.why}', s.fn)
+      bad = [f'{rel}:{s.lineno} {s.what.strip()}' for s in sites if not s.ok]
+      fact(p, f'frame.all:{n.name}', not bad,
+           f'{rel}::{n.name}: every mutation site (the ones present today and any added later) mutates an object created in '
+           f'the same call ({bad})', n.name)
       fact(p, f'determ.sources:{n.name}', not nondet,
            f'{rel}::{n.name} uses no global RNG / clock / OS entropy ({nondet})', n.name)
       lazy = own.lazy_in_state(n)
